@@ -642,9 +642,11 @@ class StructCodec(AbstractMetadataCodec):
         def object_encode(obj):
             values = []
             for key, sub_encoder in sub_encoders.items():
-                try:
+                # Only a key missing from *this* object falls back to the default; a
+                # KeyError raised while encoding a nested value must not be swallowed.
+                if key in obj:
                     values.append(sub_encoder(obj[key]))
-                except KeyError:
+                else:
                     values.append(sub_encoder(defaults[key]))
             return b"".join(values)
 
@@ -666,9 +668,9 @@ class StructCodec(AbstractMetadataCodec):
             values = []
             if obj is not None:
                 for key, sub_encoder in sub_encoders.items():
-                    try:
+                    if key in obj:
                         values.append(sub_encoder(obj[key]))
-                    except KeyError:
+                    else:
                         values.append(sub_encoder(defaults[key]))
             return b"".join(values)
 
